@@ -1,3 +1,75 @@
 import TTModel.Proto
-/-! C08 driver — stub (not built yet): answers `bad-op` to everything. -/
-def main : IO Unit := TT.Proto.mainLoop fun _ => "bad-op"
+import TTModel.C08_Coalescent
+/-!
+C08 driver.  Request: `<op> <F|Q> <numbers> | <numbers> | <numbers>`  (groups separated by `|`).
+`F`: numbers are 16-hex-digit IEEE bit patterns, the model runs at `Float`;
+`Q`: numbers are `p/q`, the model runs at `Rat` (ops without `log`/`exp` only).
+
+  events  X | heights | grid      -> `marks … lin … ridx … gidx …` (sorted mask, lineage counts, skyride and
+                                      skygrid theta indices) — discrete, exact
+  terms   X | heights | grid      -> the per-interval products `lchoose2 * durations`
+  const   F theta | heights                   constI  X theta | heights          (interval part only)
+  skyride F thetas | heights                  skyrideI X thetas | heights
+  skygrid F thetas | heights | grid           skygridI X thetas | heights | grid
+  exp     F theta g | heights
+-/
+open TT TT.Proto TT.C08
+
+def splitGroups (ws : List String) : List (List String) :=
+  let rec go (ws : List String) (cur : List String) (acc : List (List String)) : List (List String) :=
+    match ws with
+    | [] => (cur.reverse :: acc).reverse
+    | w :: rest => if w = "|" then go rest [] (cur.reverse :: acc) else go rest (w :: cur) acc
+  go ws [] []
+
+def showInts (l : List Int) : String := ",".intercalate (l.map toString)
+def showNats (l : List Nat) : String := ",".intercalate (l.map toString)
+
+def evReply {α : Type} [LE α] [DecidableLE α] (heights grid : List α) : String :=
+  let ev := sortEvents (mkEvents heights grid)
+  s!"marks {showInts (marks ev)} lin {showInts (lineages ev)} ridx {showNats (skyrideIdx ev)} gidx {showNats (skygridIdx ev)}"
+
+def termsOf {α : Type} [LE α] [DecidableLE α] [Sub α] [Mul α] [Div α] [IntCast α] [OfNat α 2]
+    (heights grid : List α) : List α :=
+  let ev := sortEvents (mkEvents heights grid)
+  List.zipWith (fun k d => (choose2 k : α) * d) (lineages ev) (diffs (times ev))
+
+def oddLen {α} (h : List α) : Bool := h.length % 2 == 1
+
+def handleF (op : String) (g : List (List Float)) : Option String :=
+  match op, g with
+  | "events", [[], h, grid] => if oddLen h then some (evReply h grid) else none
+  | "terms", [[], h, grid] =>
+      if oddLen h then some (" ".intercalate ((termsOf h grid).map floatBits)) else none
+  | "const", [[θ], h] => if oddLen h then some (floatBits (constantLogProb θ h)) else none
+  | "constI", [[θ], h] => if oddLen h then some (floatBits (constantIntegral θ h)) else none
+  | "skyride", [θ, h] => if oddLen h then some (floatBits (skyrideLogProb θ h)) else none
+  | "skyrideI", [θ, h] => if oddLen h then some (floatBits (skyrideIntegral θ h)) else none
+  | "skygrid", [θ, h, grid] => if oddLen h then some (floatBits (skygridLogProb θ grid h)) else none
+  | "skygridI", [θ, h, grid] => if oddLen h then some (floatBits (skygridIntegral θ grid h)) else none
+  | "exp", [[θ, gr], h] => if oddLen h then some (floatBits (exponentialLogProb θ gr h)) else none
+  | _, _ => none
+
+def handleQ (op : String) (g : List (List Rat)) : Option String :=
+  match op, g with
+  | "events", [[], h, grid] => if oddLen h then some (evReply h grid) else none
+  | "terms", [[], h, grid] =>
+      if oddLen h then some (" ".intercalate ((termsOf h grid).map showRat)) else none
+  | "constI", [[θ], h] => if oddLen h then some (showRat (constantIntegral θ h)) else none
+  | "skyrideI", [θ, h] => if oddLen h then some (showRat (skyrideIntegral θ h)) else none
+  | "skygridI", [θ, h, grid] => if oddLen h then some (showRat (skygridIntegral θ grid h)) else none
+  | _, _ => none
+
+def handle (line : String) : String :=
+  match splitWords line with
+  | op :: "F" :: rest =>
+    match (splitGroups rest).mapM (fun g => g.mapM parseFloatBits) with
+    | some g => (handleF op g).getD "bad-op"
+    | none => "bad-op"
+  | op :: "Q" :: rest =>
+    match (splitGroups rest).mapM (fun g => g.mapM parseRat) with
+    | some g => (handleQ op g).getD "bad-op"
+    | none => "bad-op"
+  | _ => "bad-op"
+
+def main : IO Unit := mainLoop handle
